@@ -30,6 +30,9 @@ type Req struct {
 	Body    string `json:"body"` // "" none | "plain" (no GetBody) | "rewindable"
 	Desired string `json:"desired,omitempty"`
 	SleepMs int    `json:"sleep_ms,omitempty"`
+	// Plain: the request goes to the plaintext (http) endpoint of the host name: another endpoint
+	// than the https one, which has to issue its own challenge before it is sent a password
+	Plain bool `json:"plain,omitempty"`
 }
 
 type Script struct {
@@ -99,7 +102,11 @@ func run(s Script, v *vt.V) {
 				tb = &trackedBody{r: bytes.NewReader(content)}
 				body = tb
 			}
-			req, _ := http.NewRequestWithContext(ctx, rq.Method, "https://"+h.Name+path, nil)
+			scheme := "https://"
+			if rq.Plain {
+				scheme = "http://"
+			}
+			req, _ := http.NewRequestWithContext(ctx, rq.Method, scheme+h.Name+path, nil)
 			var rewinds []*trackedBody
 			if body != nil {
 				req.Body = body
@@ -215,7 +222,7 @@ func run(s Script, v *vt.V) {
 						credUses++
 						switch {
 						case a.Kind != "registry" && named(a.Scheme+"://"+a.Host+"/"): // a realm its own registry named (whatever is listening there)
-						case a.Kind == "registry" && a.Host == owner && basicChallenged[owner]:
+						case a.Kind == "registry" && a.Host == owner && basicChallenged[a.Scheme+"://"+a.Host]:
 						default:
 							why := "a destination it may not go to"
 							if a.Kind == "registry" && a.Host == owner {
@@ -248,7 +255,7 @@ func run(s Script, v *vt.V) {
 					said[a.Host] = append(said[a.Host], a.ChalHdr...)
 					for _, c := range a.ChalHdr {
 						if refScheme(c) == "basic" {
-							basicChallenged[a.Host] = true
+							basicChallenged[a.Scheme+"://"+a.Host] = true
 						}
 					}
 				}
@@ -344,6 +351,7 @@ func genScript(t *rapid.T) Script {
 			Body:    rapid.SampledFrom([]string{"", "", "plain", "rewindable"}).Draw(t, "body"),
 			Desired: rapid.SampledFrom([]string{"", "", "repository:bar:pull", "repository:bar:push"}).Draw(t, "desired"),
 			SleepMs: rapid.SampledFrom([]int{0, 0, 1500, 61000}).Draw(t, "sleep"),
+			Plain:   rapid.IntRange(0, 5).Draw(t, "plain") == 0,
 		})
 	}
 	return s
@@ -352,7 +360,7 @@ func genScript(t *rapid.T) Script {
 var prop = &vt.Prop[Script]{
 	ID:   "C11",
 	Name: "CredentialConfinement",
-	Rule: "2-3 registry hosts (two of them differing only in port) with distinct unique secrets and credential kinds {none, basic, refresh, refresh+basic, static token, failing config lookup}; token realms on separate hosts or on another registry's host; challenges {Bearer exact / no scope / unrelated scope, Basic, both, raw headers of every RFC 7235 shape: case variants, token and quoted values with escapes, missing '=', unterminated quotes, empty, 8-bit, unknown schemes (Negotiate, NTLM, Digest, Custom), several challenges in one line, realm naming another registry, malformed realm URL, very long scope}; token servers that fail with statuses 300-599 or redirect (301/302/307/308) to a host nobody named or to another port of the realm's host or to the same host over plaintext http, return malformed / empty JSON, omit the token, lack the POST endpoint, refuse over-wide scopes; registries that answer 401 to every token, with the usual challenge or - when a token was presented - with no, an unsupported or an unparsable Www-Authenticate header; 1-8 requests with no body, a plain body and a rewindable body; in a synctest bubble over the in-memory world; oracle: every secret is searched (also base64- and URL-decoded) in every outgoing request: a password only to a realm host its own registry named, or as Basic to its own registry after that registry issued a Basic challenge; a refresh token only to such realms; access tokens only to their own registry; at most 2 registry requests (and 8 token requests) per call; a 401 answered to a token minted in this call (on the retry, or on a first attempt made with a token acquired up front) reaches the caller as 403 DENIED (a JSON error document declared as application/json, whatever content type the registry's 401 had); the caller's request (method, URL, headers, ContentLength, Body, GetBody) is unchanged; every body (incl. those from GetBody) is closed on every path; a failing config lookup sends nothing; no panic; non-trivial = a challenge was seen and a credential was sent; distinct = the script",
+	Rule: "2-3 registry hosts (two of them differing only in port) with distinct unique secrets and credential kinds {none, basic, refresh, refresh+basic, static token, failing config lookup}; token realms on separate hosts or on another registry's host; challenges {Bearer exact / no scope / unrelated scope, Basic, both, raw headers of every RFC 7235 shape: case variants, token and quoted values with escapes, missing '=', unterminated quotes, empty, 8-bit, unknown schemes (Negotiate, NTLM, Digest, Custom), several challenges in one line, realm naming another registry, malformed realm URL, very long scope}; token servers that fail with statuses 300-599 or redirect (301/302/307/308) to a host nobody named or to another port of the realm's host or to the same host over plaintext http, return malformed / empty JSON, omit the token, lack the POST endpoint, refuse over-wide scopes; registries that answer 401 to every token, with the usual challenge or - when a token was presented - with no, an unsupported or an unparsable Www-Authenticate header; 1-8 requests (some to the plaintext http endpoint of a host name, which is a registry of its own as far as challenges go) with no body, a plain body and a rewindable body; in a synctest bubble over the in-memory world; oracle: every secret is searched (also base64- and URL-decoded) in every outgoing request: a password only to a realm host its own registry named, or as Basic to its own registry after that registry issued a Basic challenge; a refresh token only to such realms; access tokens only to their own registry; at most 2 registry requests (and 8 token requests) per call; a 401 answered to a token minted in this call (on the retry, or on a first attempt made with a token acquired up front) reaches the caller as 403 DENIED (a JSON error document declared as application/json, whatever content type the registry's 401 had); the caller's request (method, URL, headers, ContentLength, Body, GetBody) is unchanged; every body (incl. those from GetBody) is closed on every path; a failing config lookup sends nothing; no panic; non-trivial = a challenge was seen and a credential was sent; distinct = the script",
 	Gen:  genScript,
 	Run:  run,
 }
